@@ -5,13 +5,15 @@ go 1.18
 require (
 	git.sr.ht/~rockorager/vaxis v0.0.0
 	github.com/containerd/console v1.0.3
+	github.com/mattn/go-runewidth v0.0.14
+	github.com/rivo/uniseg v0.4.4
 )
 
 require (
-	github.com/mattn/go-runewidth v0.0.14 // indirect
+	github.com/creack/pty v1.1.18 // indirect
 	github.com/mattn/go-sixel v0.0.5 // indirect
-	github.com/rivo/uniseg v0.4.4 // indirect
 	github.com/soniakeys/quant v1.0.0 // indirect
+	golang.org/x/exp v0.0.0-20230522175609-2e198f4a06a1 // indirect
 	golang.org/x/image v0.9.0 // indirect
 	golang.org/x/sys v0.10.0 // indirect
 )
